@@ -29,13 +29,17 @@ GOOD = [
     ("emoji_u42.svg", '<svg xmlns="http://www.w3.org/2000/svg" viewBox="0 0 100 100"><path d="M10,90 L50,20 L90,90 Z" fill="#771199"/></svg>'),
 ]
 BODY = '<rect x="15" y="15" width="55" height="35" fill="{fill}"/>'
-DEFECTS = ["dup-basename", "dup-scheme", "dup-case", "malformed-xml", "truncated-xml", "unknown-colour", "pattern-paint", "missing-gradient", "bad-spread", "palette-conflict", "masters-mismatch", "bitmap-too-big"]
+DEFECTS = ["dup-glyph-name", "dup-basename", "dup-scheme", "dup-case", "malformed-xml", "truncated-xml", "unknown-colour", "pattern-paint", "missing-gradient", "bad-spread", "palette-conflict", "masters-mismatch", "bitmap-too-big"]
 VECTOR_FORMATS = ["glyf_colr_1", "glyf_colr_0", "picosvg", "glyf", "cff_colr_1"]
 
 
 def make_defect(kind, r):
     """-> (list of (name, text), formats where it applies, extra flags, description)"""
     S = lambda body, defs="": f'<svg xmlns="http://www.w3.org/2000/svg" viewBox="0 0 100 100">{defs}{body}</svg>'
+    if kind == "dup-glyph-name":
+        # different codepoints, one glyph name: ASCII letters are named by the letter, everything else by lower-case hex
+        a, b = r.choice([("emoji_u0061.svg", "emoji_u000a.svg"), ("emoji_u0062.svg", "emoji_u000b.svg"), ("emoji_u0066.svg", "emoji_u000f.svg")])
+        return [(a, S(BODY.format(fill="#010203"))), (b, S(BODY.format(fill="#a0b0c0")))], VECTOR_FORMATS + ["untouchedsvg", "cbdt"], [], "two codepoints whose glyph names coincide"
     if kind == "dup-basename":
         return [("stock/emoji_u1f601.svg", S(BODY.format(fill="#010203"))), ("override/emoji_u1f601.svg", S(BODY.format(fill="#a0b0c0")))], VECTOR_FORMATS + ["untouchedsvg"], [], "the same file name in two source directories"
     if kind == "dup-scheme":
@@ -48,7 +52,7 @@ def make_defect(kind, r):
         t = S(BODY.format(fill="#123456") * 3)
         return [("emoji_u1f601.svg", t[: len(t) // 2])], VECTOR_FORMATS + ["untouchedsvg", "cbdt"], [], "file cut in half"
     if kind == "unknown-colour":
-        return [("emoji_u1f601.svg", S(BODY.format(fill=r.choice(["notacolour", "#12", "rgb(1,2)", "hsl(10,20%,30%)x"]))))], VECTOR_FORMATS, [], "colour string nanoemoji cannot parse"
+        return [("emoji_u1f601.svg", S(BODY.format(fill=r.choice(["notacolour", "#12", "rgb(1,2)", "hsl(10,20%,30%)x", "#12345", "#FF00007", "#1234567"]))))], VECTOR_FORMATS, [], "colour string nanoemoji cannot parse"
     if kind == "pattern-paint":
         return [("emoji_u1f601.svg", S(BODY.format(fill="url(#p)"), '<defs><pattern id="p" width="10" height="10" patternUnits="userSpaceOnUse"><rect width="5" height="5" fill="red"/></pattern></defs>'))], VECTOR_FORMATS, [], "pattern paint server"
     if kind == "missing-gradient":
